@@ -103,6 +103,8 @@ TEXT_CLASSES = [
     "abcxyzABC019_ ", "'", '"', "\\", "\x00\x01\x07\x08\t\n\x0b\x0c\r\x1b\x1f", "\x7f", "\x80\x85\xa0\xad\xff\xe9\xdf",
     "   　 ", "​‎⁠﻿­", "", "͸԰￿", "́̈⃐",
     "中Ａあ가", "\U0001f600\U00010000\U0010ffff\U000e0001\U0001d11e", "{}[]!:.%",
+    # borders of the UTF-8 / UTF-16 length classes and of the surrogate gap, noncharacters, private use
+    "\x7f\x80\xff\u0100\u07ff\u0800\ud7ff\ue000\ufffd\ufffe\uffff\U00010000\U0001ffff\U000f0000\U0010fffe\U0010ffff",
 ]
 
 
@@ -111,6 +113,10 @@ def gen_text(cs, maxlen=12, classes=None):
     n = cs.choice(maxlen + 1)
     out = []
     for _ in range(n):
+        if classes is TEXT_CLASSES and cs.bool(20):
+            cp = cs.choice(0x110000)            # any code point at all (lone surrogates cannot be passed to the adapter)
+            out.append(chr(cp) if not 0xD800 <= cp <= 0xDFFF else '\ue000')
+            continue
         c = cs.pick(classes)
         out.append(cs.pick(c))
     return ''.join(out)
